@@ -8,11 +8,12 @@
         ev      ::= F<hex> | L<hex> | M | T           (F- is an empty payload)
       -> <outcome> seq=<n> q=<queue> consumed=<n> sends=<n> tx=<hex> left=<sock>
          (consumed: events read, of socket content + arrivals; left: what is in the socket afterwards)
-    i2c <d|a> <nextSeq> <rsSa> <netfn> <lun> <cmd> <payload> <ev>*
+    i2c <d|a> <refuse 0|1> <nextSeq> <rsSa> <netfn> <lun> <cmd> <payload> <routing> <ev>*
         ev      ::= F<dt>:<hex> | L<dt>:<hex> | E<dt> | I
-      -> <outcome> seq=<n> consumed=<n> sends=<n> tx=<hex>
-    probe <d|a> <inc 0|1> <nextSeq> <rsSa> <ev>*          (is_ipmc_accessible; ok = "accessible")
-      -> <outcome> seq=<n> consumed=<n> sends=<n> tx=<hex>
+        refuse  ::= 1 (repaired: a routing with more than one hop raises NotSupportedError) | 0 (as shipped: ignored)
+      -> <outcome> seq=<n> consumed=<n> sends=<n> tx=<hex|?>        (tx=? : nothing was written)
+    probe <d|a> <inc 0|1> <refuse 0|1> <nextSeq> <rsSa> <routing> <ev>*          (is_ipmc_accessible; ok = "accessible")
+      -> <outcome> seq=<n> consumed=<n> sends=<n> tx=<hex|?>
     oracle <checkSeq> <netfn> <lun> <cmd> <seq> <hex>*      (Spec.allowedAnswers)
       -> allowed <hex>*
     classify <checkSeq> <netfn> <lun> <cmd> <seq> <bridged -|seq> <hex>     (Spec predicates on one frame)
@@ -86,6 +87,12 @@ def parseI2cEvent (s : String) : Option I2cEvent :=
   else if s.startsWith "L" then (parseDtHex (s.drop 1).toString).map fun p => .badLen p.1 p.2
   else none
 
+/-- the first frame written (`?` when nothing was) -/
+def showTx (tx : List Frame) : String :=
+  match tx with
+  | [] => "?"
+  | f :: _ => toHex f
+
 def b01 (b : Bool) : String := if b then "1" else "0"
 
 def handleC04 (line : String) : String :=
@@ -107,21 +114,22 @@ def handleC04 (line : String) : String :=
         s!"{showOut r.out} seq={r.st.nextSeq} q={showQueue r.st.queue} consumed={(pending cfg st evs).length - r.rest.length} sends={r.tx.length} tx={toHex (txData cfg req r.st.nextSeq)} left={showSock r.st.sock}"
       | _, _, _, _, _, _, _, _, _ => "bad-op"
     | _, _, _, _, _, _, _, _ => "bad-op"
-  | "i2c" :: kind :: seq :: rsSa :: netfn :: lun :: cmd :: pl :: evs =>
-    match seq.toNat?, rsSa.toNat?, netfn.toNat?, lun.toNat?, cmd.toNat?, ofHex pl, evs.mapM parseI2cEvent with
-    | some seq, some rsSa, some netfn, some lun, some cmd, some pl, some evs =>
-      let cfg := if kind == "d" then I2cCfg.ipmbdev else I2cCfg.aardvark
-      let req : Req := { rsSa := rsSa, netfn := netfn, lun := lun, cmd := cmd, payload := pl }
+  | "i2c" :: kind :: rf :: seq :: rsSa :: netfn :: lun :: cmd :: pl :: rt :: evs =>
+    match parseBool rf, seq.toNat?, rsSa.toNat?, netfn.toNat?, lun.toNat?, cmd.toNat?, ofHex pl, parseRouting rt,
+        evs.mapM parseI2cEvent with
+    | some rf, some seq, some rsSa, some netfn, some lun, some cmd, some pl, some rt, some evs =>
+      let cfg := { (if kind == "d" then I2cCfg.ipmbdev else I2cCfg.aardvark) with refuseRouted := rf }
+      let req : Req := { rsSa := rsSa, netfn := netfn, lun := lun, cmd := cmd, payload := pl, routing := rt }
       let r := i2cRequest cfg seq req evs
-      s!"{showOut r.out} seq={r.nextSeq} consumed={evs.length - r.rest.length} sends={r.tx.length} tx={toHex (encodeIpmbMsg (mkHdr cfg.slaveAddr req r.nextSeq) pl)}"
-    | _, _, _, _, _, _, _ => "bad-op"
-  | "probe" :: kind :: inc :: seq :: rsSa :: evs =>
-    match parseBool inc, seq.toNat?, rsSa.toNat?, evs.mapM parseI2cEvent with
-    | some inc, some seq, some rsSa, some evs =>
-      let cfg := if kind == "d" then I2cCfg.ipmbdev else I2cCfg.aardvark
-      let r := i2cProbe cfg inc seq rsSa evs
-      s!"{showOut r.out} seq={r.nextSeq} consumed={evs.length - r.rest.length} sends={r.tx.length} tx={toHex (r.tx.headD [])}"
-    | _, _, _, _ => "bad-op"
+      s!"{showOut r.out} seq={r.nextSeq} consumed={evs.length - r.rest.length} sends={r.tx.length} tx={showTx r.tx}"
+    | _, _, _, _, _, _, _, _, _ => "bad-op"
+  | "probe" :: kind :: inc :: rf :: seq :: rsSa :: rt :: evs =>
+    match parseBool inc, parseBool rf, seq.toNat?, rsSa.toNat?, parseRouting rt, evs.mapM parseI2cEvent with
+    | some inc, some rf, some seq, some rsSa, some rt, some evs =>
+      let cfg := { (if kind == "d" then I2cCfg.ipmbdev else I2cCfg.aardvark) with refuseRouted := rf }
+      let r := i2cProbe cfg inc seq rsSa evs rt
+      s!"{showOut r.out} seq={r.nextSeq} consumed={evs.length - r.rest.length} sends={r.tx.length} tx={showTx r.tx}"
+    | _, _, _, _, _, _ => "bad-op"
   | "oracle" :: cs :: netfn :: lun :: cmd :: seq :: frames =>
     match parseBool cs, netfn.toNat?, lun.toNat?, cmd.toNat?, seq.toNat?, frames.mapM ofHex with
     | some cs, some netfn, some lun, some cmd, some seq, some frames =>
